@@ -363,7 +363,80 @@ def native_witness(ctx):
     return {'confirmed': False}
 
 
+def _schedulers_never_drop_always_run_for_cancelled(ctx):
+    """always-run jobs run regardless of how their parents ended: mark_job_complete sets jobs.cancelled = 1 on EVERY child of a
+    parent that did not succeed, always-run children included.  So no query by which the driver picks jobs to create instances
+    for / to schedule (pool.py, job_private.py) may drop a job because of jobs.cancelled unless the same query is about
+    non-always-run jobs only: a top-level WHERE conjunct that tests the jobs' cancelled flag must either mention always_run
+    itself (`always_run OR NOT cancelled`) or stand next to a conjunct `always_run = 0` / `NOT always_run`."""
+    import ast as pyast
+
+    from vc import sqlast as A, sqlparse
+
+    seen, bad = 0, []
+    for rel in ('batch/batch/driver/instance_collection/pool.py', 'batch/batch/driver/instance_collection/job_private.py'):
+        tree = pyast.parse(core.read_repo(rel))
+        from contracts import sched_visibility as SV
+        inside_fstring = {id(v) for f in pyast.walk(tree) if isinstance(f, pyast.JoinedStr) for v in pyast.walk(f) if v is not f}
+        texts = []
+        for n in pyast.walk(tree):
+            if isinstance(n, pyast.Constant) and isinstance(n.value, str) and id(n) not in inside_fstring:
+                texts.append((n, n.value))
+            elif isinstance(n, pyast.JoinedStr) and id(n) not in inside_fstring:
+                t_ = SV._sql_text(n)
+                if t_:
+                    texts.append((n, t_))
+        for n, text in texts:
+            if not ('SELECT' in text.upper() and 'cancelled' in text and ' jobs' in text.replace('\n', ' ')):
+                continue
+            try:
+                stmts = sqlparse.parse_statements(text, rel, n.lineno)
+            except Exception as e:  # pylint: disable=broad-except
+                raise core.Undecided('embedded query at %s:%d is outside the SQL subset: %s' % (rel, n.lineno, str(e)[:100]))
+            for stn in stmts:
+                for sel in stn.walk():
+                    if not (isinstance(sel, A.Select) and sel.where is not None):
+                        continue
+                    conj = []
+
+                    def walk(e):
+                        if isinstance(e, A.BinOp) and e.op == 'AND':
+                            walk(e.left)
+                            walk(e.right)
+                        else:
+                            conj.append(e)
+
+                    walk(sel.where)
+
+                    def names(e):
+                        out, stack = [], [e]
+                        import dataclasses
+                        while stack:
+                            x = stack.pop()
+                            if isinstance(x, A.Name):
+                                out.append(x.parts)
+                            elif dataclasses.is_dataclass(x):
+                                for f in dataclasses.fields(x):
+                                    v = getattr(x, f.name)
+                                    stack.extend(v if isinstance(v, (list, tuple)) else [v])
+                        return out
+
+                    def is_jobs_col(parts, col):
+                        return parts[-1] == col and (len(parts) == 1 or parts[0] == 'jobs')
+
+                    only_plain = any((isinstance(c, A.BinOp) and c.op == '=' and isinstance(c.left, A.Name) and is_jobs_col(c.left.parts, 'always_run') and isinstance(c.right, A.Lit) and c.right.value in (0, False))
+                                     or (isinstance(c, A.UnOp) and c.op == 'NOT' and isinstance(c.operand, A.Name) and is_jobs_col(c.operand.parts, 'always_run')) for c in conj) if hasattr(A, 'UnOp') else False
+                    for c in conj:
+                        ns = names(c)
+                        if any(is_jobs_col(p_, 'cancelled') for p_ in ns):
+                            seen += 1
+                            if not (any(is_jobs_col(p_, 'always_run') for p_ in ns) or only_plain):
+                                bad.append('%s:%d' % (rel, getattr(sel, 'line', None) or n.lineno))
+    ctx.add(core.decided('C05/schedulers/no-selection-drops-an-always-run-job-because-of-its-cancelled-flag', seen >= 3 and not bad, 'conjuncts testing jobs.cancelled: %d; dropping always-run jobs: %r' % (seen, bad), kind='scan'))
+
+
 def build(ctx):
+    _schedulers_never_drop_always_run_for_cancelled(ctx)
     ex = SP.proc_exec(inline_after=False)
     # ---------------- mark_job_complete: children statement
     name = 'mark_job_complete'
